@@ -591,6 +591,57 @@ package badger
 //@   assert[send-error-returned] before return#3 : result == ret1(commitAndSend#1) && result != nil
 //@   assert[waits-for-apply] before return#4 : called(txnCb#1) && result == ret(txnCb#1)
 
+// CommitWith: same order as Commit (precheck, then commitAndSend); a precheck error goes to the
+// callback directly, a send error or the commit callback's verdict through runTxnCallback with
+// the caller's callback.
+//@ func (*Txn).CommitWith
+//@   props C03 C27
+//@   light
+//@   assert[precheck-first] before call commitAndSend : called(commitPrecheck#1) && ret(commitPrecheck#1) == nil && arg0 == txn
+//@   assert[precheck-error-to-callback] before call cb : arg0 == ret(commitPrecheck#1) && arg0 != nil
+//@   assert[nothing-to-write-reports-success] before call runTxnCallback#1 : len(txn.pendingWrites) == 0 && arg0 != nil && arg0.err == nil
+//@   assert[send-error-reported] before call runTxnCallback#2 : arg0 != nil && arg0.err == ret1(commitAndSend#1) && arg0.err != nil
+//@   assert[verdict-of-the-apply-reported] before call runTxnCallback#3 : arg0 != nil && arg0.err == nil && ret1(commitAndSend#1) == nil
+
+// Update / View: the closure runs on a fresh transaction of the right kind; Update commits that
+// same transaction exactly when the closure succeeded, and the caller gets the closure's error or
+// the commit's verdict.
+//@ func (*DB).Update
+//@   props C03
+//@   light
+//@   assert[update-transaction] before call NewTransaction : arg0 == db && arg1
+//@   assert[closure-on-that-transaction] before call fn : arg0 == ret(NewTransaction#1)
+//@   assert[closure-error-returned-uncommitted] before return#2 : result == ret(fn#1) && result != nil && !called(Commit#1)
+//@   assert[commit-that-transaction] before call Commit : arg0 == ret(NewTransaction#1) && ret(fn#1) == nil
+//@   assert[commit-verdict-returned] before return#3 : result == ret(Commit#1)
+
+//@ func (*DB).View
+//@   props C01
+//@   light
+//@   assert[read-only-transaction] before call NewTransaction : arg0 == db && !arg1
+//@   assert[managed-reads-latest] before call NewTransactionAt : arg0 == db && arg1 == ^uint64(0) && !arg2
+//@   assert[closure-verdict-returned] before return#2 : result == ret(fn#1)
+
+// Set / SetEntry / Delete: the write handed to modify is exactly the one the caller described.
+//@ func (*Txn).SetEntry
+//@   props C27 C04
+//@   light
+//@   assert[the-entry] before call modify : arg0 == txn && arg1 == e
+//@   assert[verdict-returned] before return : result == ret(modify#1)
+
+//@ func (*Txn).Delete
+//@   props C27 C04 C29
+//@   light
+//@   assert[a-delete-marker-for-the-key] before call modify : arg0 == txn && arg1 != nil && arg1.Key == key && arg1.meta == bitDelete && arg1.version == 0 && len(arg1.Value) == 0 && arg1.ExpiresAt == 0
+//@   assert[verdict-returned] before return : result == ret(modify#1)
+
+//@ func (*Txn).Set
+//@   props C27 C04
+//@   light
+//@   assert[key-and-value-as-given] before call NewEntry : arg0 == key && arg1 == val
+//@   assert[that-entry] before call SetEntry : arg0 == txn && arg1 == ret(NewEntry#1)
+//@   assert[verdict-returned] before return : result == ret(SetEntry#1)
+
 // runTxnCallback: the user's callback gets the send error, or the result of the commit
 // callback, exactly once.
 //@ func runTxnCallback
